@@ -127,4 +127,55 @@ impl IndexMap<DFAId, usize> {
     { unimplemented!() }
 }
 
+impl DFA {
+    /// ASSUMED (not verified): get_all_literals numbers the literal symbols of the pool, longest
+    /// first, from the shell's index base; what the table builders need of it is that every literal
+    /// transition's (text, description-or-empty) pair is listed, each pair once. (Its order and ids
+    /// are compared with an independent computation by the bounded stand-in of C04.)
+    #[verifier::external_body]
+    fn get_all_literals(&self, array_start: usize) -> (r: Vec<(LiteralId, Ustr, Ustr)>)
+        ensures
+            forall|q: u32, id: InpId, t: (Ustr, Ustr, u32)| #[trigger] lit_entry(*self, q, id, t) ==> listed(r@, t.0, t.1),
+            forall|i: int, j: int| 0 <= i < j < r@.len() ==> !((#[trigger] r@[i]).1 == (#[trigger] r@[j]).1 && r@[i].2 == r@[j].2),
+    { unimplemented!() }
+
+    /// the any-word transitions (a filter_map over iter_transitions): the vector of what it yields
+    #[verifier::external_body]
+    fn iter_top_level_star_transitions(&self) -> (r: Vec<(StateId, StateId)>)
+        requires dfa_wf(*self)
+        ensures forall|p: (u32, u32)| r@.contains(p) <==> star_tr(*self, p)
+    { unimplemented!() }
+}
+
+/// the empty string can be interned (`ustr("")` returns such a value)
+#[verifier::external_body]
+pub proof fn axiom_empty_ustr_exists()
+    ensures exists|e: Ustr| e@ =~= Seq::<char>::empty()
+{ }
+
+impl Default for IndexMap<DFAId, usize> {
+    #[verifier::external_body]
+    fn default() -> (r: IndexMap<DFAId, usize>)
+        ensures r@ == Map::<DFAId, usize>::empty()
+    { unimplemented!() }
+}
+
+/// `m.entry(k).or_insert_with(|| { let save = c; c += 1; save })` (rule R18): a new key gets the
+/// counter's value and the counter moves on; a known key changes nothing. ASSUMPTION (machine
+/// arithmetic treated as mathematical): the counter does not wrap -- it counts entries held in memory.
+#[verifier::external_body]
+pub fn __entry_or_insert_counter_ix(m: &mut IndexMap<DFAId, usize>, k: DFAId, counter: &mut usize)
+    ensures
+        old(m)@.contains_key(k) ==> final(m)@ == old(m)@ && *final(counter) == *old(counter),
+        !old(m)@.contains_key(k) ==> final(m)@ == old(m)@.insert(k, *old(counter)) && *final(counter) == *old(counter) + 1,
+{ unimplemented!() }
+
+/// `for (k, v) in &table`: every row once
+#[verifier::external_body]
+pub fn __tmap_entries<'a>(m: &'a IndexMap<u32, IndexMap<InpId, u32>>) -> (r: Vec<(&'a u32, &'a IndexMap<InpId, u32>)>)
+    ensures
+        forall|i: int| 0 <= i < r@.len() ==> m@.contains_key(*(#[trigger] r@[i]).0) && m@[*r@[i].0] == r@[i].1@,
+        forall|k: u32| m@.contains_key(k) ==> exists|i: int| 0 <= i < r@.len() && *(#[trigger] r@[i]).0 == k,
+{ unimplemented!() }
+
 } // verus!
